@@ -96,6 +96,19 @@ def showTok (s : St) (n : Nat) : Option String :=
 def showWeek (s : St) (w : Nat) : String :=
   s!"{w}:{s.b.accum w},{s.b.remaining w},{s.b.farmSupplyWeek w},{s.w.totalEnergy w},{s.w.totalLocked w},{showRewards (s.w.totalRewards w)}"
 
+/-- a per-week ledger over the weeks `1 … W`: `week:value` of the non-zero entries, weeks ascending, `-` if none -/
+def showLedger (f : Nat → Nat) (W : Nat) : String :=
+  let l := (List.range W).filterMap fun i =>
+    let w := i + 1
+    if f w = 0 then none else some s!"{w}:{f w}"
+  if l.isEmpty then "-" else ",".intercalate l
+
+/-- the ghost per-week ledgers the boosted-pool theorems talk about (`cutW`, `paidW`, `collW`), ALL weeks, in the format
+    of the harness's own ledgers (`farm_common/oracle.rs`: `cut_w`, `paid_w`, `collected_w`, built from the real
+    contract's observable deltas only) -/
+def showGhosts (s : St) (W : Nat) : String :=
+  s!"led=cut:{showLedger s.b.cutW W};paid:{showLedger s.b.paidW W};coll:{showLedger s.b.collW W}"
+
 def showState (s : St) : String :=
   let W := (s.week).getD 0
   let lo := if W > 6 then W - 6 else 1
@@ -107,7 +120,7 @@ def showState (s : St) : String :=
   s!"gen={s.generated} paid={s.paid} pbase={s.paidBase} pboost={s.paidBoosted} bud={s.baseBudget} burn={s.penaltyBurned} " ++
   s!"und={s.undist} lc={s.lastCollect} cfg={showCfg s.b.cfg} g={s.w.lastGlobalUpdateWeek},{s.w.firstBucketId} " ++
   "wks=" ++ " ".intercalate weeks ++ " U " ++ " ".intercalate (s.users.map (showUser s)) ++
-  " T " ++ " ".intercalate ((nonces s).filterMap (showTok s))
+  " T " ++ " ".intercalate ((nonces s).filterMap (showTok s)) ++ " " ++ showGhosts s W
 
 def initOf (ws : List String) : St :=
   let kind := if kv ws "kind" = some "fwlr" then Kind.noMint else Kind.mint
